@@ -103,7 +103,22 @@ func Now() time.Time {
 	if s == nil {
 		return time.Now()
 	}
+	// the value read becomes part of the reader's local state
+	if s.running != nil {
+		s.running.hist = mix(s.running.hist, 0x70, uint64(s.now.UnixNano()))
+	}
 	return s.now
+}
+
+// Note mixes an observation made by harness code (typically a read of state
+// owned by another thread) into the running thread's local history, so that
+// state-key pruning never merges executions whose observations differ.
+func Note(v uint64) {
+	s := cur
+	if s == nil || s.running == nil {
+		return
+	}
+	s.running.hist = mix(s.running.hist, 0x71, v)
 }
 
 // Since is time.Since on the virtual clock.
